@@ -142,6 +142,20 @@ inductive Val
 
 instance : Inhabited Val := ⟨.empty⟩
 
+/-- same generator type (for `clone_from`) -/
+def Val.sameKind : Val → Val → Bool
+  | .sm _, .sm _ => true
+  | .s2_32 g _, .s2_32 h _ => g.name == h.name
+  | .s2_64 g _, .s2_64 h _ => g.name == h.name
+  | .s4_32 g _, .s4_32 h _ => g.name == h.name
+  | .s4_64 g _, .s4_64 h _ => g.name == h.name
+  | .s8 g _, .s8 h _ => g.name == h.name
+  | .xs _, .xs _ => true
+  | .hc _, .hc _ => true
+  | .isaac _, .isaac _ => true
+  | .isaac64 _, .isaac64 _ => true
+  | _, _ => false
+
 /-- result of an operation on a slot value -/
 structure R where
   out : String
@@ -484,6 +498,23 @@ def step (ss : Slots) (line : String) : String × Slots :=
       | .timer .. => ("unsupported", ss)
       | .empty => ("unsupported", ss)
       | v => ("ok", setSlot ss d v)
+    | _, _ => ("bad-op", ss)
+  | ["clonefrom", d, s] =>
+    -- `dst.clone_from(&src)`: the default implementation is `*dst = src.clone()`; both slots must hold the same kind
+    match d.toNat?, s.toNat? with
+    | some d, some s =>
+      if d == s then ("unsupported", ss) else
+      match getSlot ss d, getSlot ss s with
+      | .jit _ _, .jit j t => ("ok", setSlot ss d (.jit (Jitter.clone j) t))
+      | .jit _ _, _ => ("unsupported", ss)
+      | _, .jit _ _ => ("unsupported", ss)
+      | .timer .., _ => ("unsupported", ss)
+      | _, .timer .. => ("unsupported", ss)
+      | .empty, _ => ("unsupported", ss)
+      | _, .empty => ("unsupported", ss)
+      | .src .., _ => ("unsupported", ss)
+      | _, .src .. => ("unsupported", ss)
+      | a, v => if a.sameKind v then ("ok", setSlot ss d v) else ("unsupported", ss)
     | _, _ => ("bad-op", ss)
   | ["rt", d, s] =>
     match d.toNat?, s.toNat? with
